@@ -38,9 +38,15 @@ class ImportConverter:
 
             ast_module, module_name = module.module, module.name
 
-            if hasattr(ast_module, "body"):
+            if not isinstance(ast_module, (ast.Import, ast.ImportFrom)):
+                # import statements can be nested in any statement list of a compound statement: not only in its
+                # body, but also e.g. in else, except, finally or case blocks
                 module_to_search.extend(
-                    [NamedModule(m, module_name) for m in ast_module.body]  # type: ignore
+                    [
+                        NamedModule(m, module_name)  # type: ignore
+                        for m in ast.iter_child_nodes(ast_module)
+                        if isinstance(m, (ast.stmt, ast.excepthandler, ast.match_case))
+                    ]
                 )
             else:
                 new_imports = self._convert(
